@@ -548,6 +548,16 @@ def _open(it, path, mode='r', *a, **k):
     return SExt('file', dict(out=SList([])))
 
 
+@model(json.load)
+def _json_load(it, fp):
+    """Assumed: json.load(fp) returns the document the file holds (for a file written by the
+    streaming writers: {TAG: [records...]}, by the framing law and loads(dumps(v)) == v)."""
+    from .ext import SExt
+    if isinstance(fp, SExt) and fp.kind == 'jsonfile':
+        return fp.fields['doc']
+    raise EngineError('json.load of an unknown file object')
+
+
 @model(json.dumps)
 def _json_dumps(it, obj, indent=None, **kw):
     from .ext import JDump
